@@ -237,6 +237,8 @@ def check_layer(A, rep):
     #     buffered) must record the hash of what is ON DISK as the entry's reference, on every path
     for func_cls in seen.values():
         cls = func_cls
+        if A.model.lookup(cls, "_initialize_data_in_buffer")[1] is None:
+            raise AnalysisError(f"anchor: {cls.name} has no entry-creating method (_initialize_data_in_buffer, or a single method assigning `_buffer[...] = {{...}}`)")
         b, g = A.graph(cls, "_save_to_buffer", "root", "obj")
         inits = [n for n in live(g) if is_leave(n, "_initialize_data_in_buffer") and own_child(n)]
         hashw = [n.id for n in live(g) if n.kind == "cs_write" and n["name"] == "_buffer" and n["op"] == "setitem" and n["index"] == Val("const", "hash") and own(n)
